@@ -32,7 +32,7 @@ Engine MakeEngine()
     e.run = Run;
     e.describe = DescribeMempoolOp;
     e.chunk = 1;
-    e.quick_runs = 220;
+    e.quick_runs = 700;
     e.thorough_runs = 12000;
     e.quick_budget_s = 75;
     e.thorough_budget_s = 1200;
